@@ -5,7 +5,6 @@ From V.model Require Import Base RelLex RelParse RelAcc RelGrammar RelGrammarAll
 From V.model Require Import RelEdit RelEditSpec RelEditTree RelLiveAll RelLiveAllParsed.
 From V.proofs Require Import BaseP RelEditP RelEditStP RelEditHistP RelEditTreeP RelEditReplaceP RelEditParsedP.
 From V.proofs Require Import RelGrammarAllParseP RelLiveAllP.
-Set Default Timeout 60.
 
 Lemma elems_app a b : elems (a ++ b) = elems a ++ elems b.
 Proof. apply map_app. Qed.
